@@ -97,9 +97,6 @@ def guard(desc, J: np.ndarray, dname: str, orders=None):
         v = np.linalg.pinv(G, rcond=1e-10) @ d
         if abs(v.sum()) < 1e-3 * np.abs(v).sum():
             return "imtlg_weight_sum_near_zero"
-        # the implementation's absolute threshold |sum v| < 1e-12 is a scale-dependent decision: stay away from it
-        if abs(v.sum()) < 1e-9:
-            return "imtlg_absolute_threshold"
         return None
     if name == "ConFIG":
         U = M.unit_rows(J)
